@@ -13,7 +13,7 @@ def funcs : List (String × String) := [
   ("internal/target/queue/queue.go:Queue.readMessageMeta", "02d7c83723fce1d9"),
   ("internal/target/queue/queue.go:Queue.removeFromDisk", "1d3b0d430214cab6"),
   ("internal/target/queue/queue.go:Queue.storeNewMessage", "b3c9b8f26b968111"),
-  ("internal/target/queue/queue.go:Queue.tryDelivery", "91d36a51cc7d0be5"),
+  ("internal/target/queue/queue.go:Queue.tryDelivery", "6590e3a3ec4082a2"),
   ("internal/target/queue/queue.go:Queue.tryRemoveDanglingFile", "065fbf2203f8153f"),
   ("internal/target/queue/queue.go:Queue.updateMetadataOnDisk", "53af3a3781a30de7"),
   ("internal/target/queue/queue.go:queueDelivery.Abort", "6ee9c17673a86668"),
